@@ -9,13 +9,13 @@ MODELS = {
     # name: (module text, cfg text, workers) -- {q}: bound that differs between quick and thorough
     "gencode_i4": ("---- MODULE MC_gc_i4 ----\nEXTENDS MC_GenCode\nmcTMin == -8\nmcU == -8..7\n====\n",
                    "SPECIFICATION Spec\nCONSTANTS TMin <- mcTMin\n TMax = 7\n U <- mcU\n MaxCard = {q}\n UsePinnedOffset = FALSE\n"
-                   "INVARIANTS Inv_Compiles Inv_C01 Inv_C05 Inv_C03 Inv_C04 Inv_C07idx\nCHECK_DEADLOCK FALSE\n", {"quick": 4, "thorough": 16}),
+                   "INVARIANTS Inv_Compiles Inv_C01 Inv_C05 Inv_Chain Inv_C03 Inv_C04 Inv_C07idx\nCHECK_DEADLOCK FALSE\n", {"quick": 4, "thorough": 16}),
     "gencode_u4": ("---- MODULE MC_gc_u4 ----\nEXTENDS MC_GenCode\nmcU == 0..15\n====\n",
                    "SPECIFICATION Spec\nCONSTANTS TMin = 0\n TMax = 15\n U <- mcU\n MaxCard = {q}\n UsePinnedOffset = FALSE\n"
-                   "INVARIANTS Inv_Compiles Inv_C01 Inv_C05 Inv_C03 Inv_C04 Inv_C07idx\nCHECK_DEADLOCK FALSE\n", {"quick": 4, "thorough": 16}),
+                   "INVARIANTS Inv_Compiles Inv_C01 Inv_C05 Inv_Chain Inv_C03 Inv_C04 Inv_C07idx\nCHECK_DEADLOCK FALSE\n", {"quick": 4, "thorough": 16}),
     "gencode_i8": ("---- MODULE MC_gc_i8 ----\nEXTENDS MC_GenCode\nmcTMin == -128\nmcU == {-128, -127, -126, -3, -1, 0, 1, 5, 125, 126, 127}\n====\n",
                    "SPECIFICATION Spec\nCONSTANTS TMin <- mcTMin\n TMax = 127\n U <- mcU\n MaxCard = {q}\n UsePinnedOffset = FALSE\n"
-                   "INVARIANTS Inv_Compiles Inv_C01 Inv_C05 Inv_C03 Inv_C04 Inv_C07idx\nCHECK_DEADLOCK FALSE\n", {"quick": 3, "thorough": 11}),
+                   "INVARIANTS Inv_Compiles Inv_C01 Inv_C05 Inv_Chain Inv_C03 Inv_C04 Inv_C07idx\nCHECK_DEADLOCK FALSE\n", {"quick": 3, "thorough": 11}),
     "iterimpl_i3": ("---- MODULE MC_it_i3 ----\nEXTENDS MC_IterImpl\nmcTMin == -4\nmcU == -4..3\n====\n",
                     "SPECIFICATION Spec\nCONSTANTS TMin <- mcTMin\n TMax = 3\n U <- mcU\n MaxCard = {q}\n Ks = {{0, 1, 2, 9}}\n UsePinnedOffset = FALSE\n PinnedTable = FALSE\n"
                     "INVARIANTS ConstructorOK ResultsAgree Refines\nCHECK_DEADLOCK FALSE\n", {"quick": 8, "thorough": 8}),
